@@ -56,6 +56,14 @@ func VerifC14_OpenBatch() {
 	sym.Assert(openCount(host) == 0, "the host leaked a received descriptor")
 	sym.Assert(openCount(w.initProc) == 0, "the container init kept a descriptor open after replying")
 	sym.Assert(w.doubleClose == 0 && w.badClose == 0, "a descriptor was closed twice")
+	// every *os.File the container opened was released through the File itself: a descriptor
+	// closed by number behind its File's back will be closed a second time by the File's
+	// finalizer - by then the number may belong to another item or to the socket
+	for _, m := range w.files {
+		if m.proc == w.initProc {
+			sym.Assert(m.closed >= 1, "the container closed a descriptor by number while its os.File stays alive (the finalizer closes the number again later)")
+		}
+	}
 	// the protocol is still in step
 	sym.Assert(w.host.Ping() == nil, "the environment is unusable after an Open batch")
 }
